@@ -159,6 +159,15 @@ def _union(rc: RuleCtx, fi, ev, val, env, label: str, tag: str, mapped_knees: bo
     res = rc.res
     pts = env["points"]
     n = sym("n")
+    if isinstance(val, PW):
+        # several exits: every one of them has to be the filtered union (A3 / A4 / A5 hold on every path)
+        new = None
+        for g_, v_ in val.cases:
+            if not g_sat(g_):
+                continue
+            r_ = _union(rc, fi, ev, v_, env, f"{label}, exit under {_short(g_, 60)}", tag, mapped_knees, flag)
+            new = new if new is not None else r_
+        return new
     if not isinstance(val, Rat):
         raise AnalysisError(f"{fi.qualname}: expected a single return value")
     a = single_atom(val)
@@ -319,7 +328,8 @@ def _even(rc: RuleCtx):
                           _short(cands, 400), _short(want_c, 400), construct="candidate test even")
         # A2: pairs (cmap[i], cmap[i+1]), i = 0, 2, 4, ...
         Ln = ev.length_of(cmap)
-        if lo.is_zero() and hi.equals(Ln) and step.is_const() == 2 and guard.kind == "true":
+        nonempty = canon_sign(ev.length_of(cands), OPS["!="])        # a fast exit for "no candidate at all" changes nothing here
+        if lo.is_zero() and hi.equals(Ln) and step.is_const() == 2 and (guard.kind == "true" or g_implies(nonempty, guard)):
             res.ok("A2", "postprocessing.add_points_even:pairs", "mapped candidates are processed as (left, right) pairs")
         else:
             res.violation("A2", fi.module, fi.name, fi.node, "the mapped candidates are not processed as consecutive (left, right) pairs",
